@@ -243,4 +243,6 @@ def features(spec):
             labs.add("weights-crossed" if f["name"] in crossed else "weights-uncrossed")
     if any(n in dm for n in crossed):
         labs.add("crossed-derived")
+    for ft in spec.get("scenario", []) or []:
+        labs.add("scenario:" + str(ft))
     return sorted(labs)
